@@ -731,7 +731,9 @@ func (l *lexer) lexRedir() action {
 // is recognised directly behind the closing token of the compound command
 // only, not behind one of its redirections.
 func (l *lexer) lexRedirs(first bool) action {
-	tok := l.scanToken()
+	// directly behind the closing token a reserved word is recognised: it
+	// is not replaced, even behind an alias that ends in <blank>
+	tok := l.scanTokenRW(first)
 	switch tok {
 	case '<', '>', CLOBBER, APPEND, HEREDOC, HEREDOCI, DUPIN, DUPOUT, RDWR:
 		l.emit(tok)
@@ -976,6 +978,12 @@ func (l *lexer) print(w ast.Word) string {
 }
 
 func (l *lexer) scanToken() int {
+	return l.scanTokenRW(false)
+}
+
+// scanTokenRW is scanToken for a place where a reserved word is recognised
+// if rw is true; a reserved word is never replaced by an alias.
+func (l *lexer) scanTokenRW(rw bool) int {
 	var blank bool
 	// one of the aliases that end here ends in <blank>
 	for i := len(l.aliases) - 1; i >= 0 && l.aliases[i].value.Len() == 0; i-- {
@@ -983,7 +991,7 @@ func (l *lexer) scanToken() int {
 	}
 Scan:
 	tok := l.scanRawToken()
-	if tok == WORD && blank && l.subst() {
+	if tok == WORD && blank && !(rw && l.tr(tok) != WORD) && l.subst() {
 		goto Scan
 	}
 	return tok
